@@ -1,7 +1,7 @@
 (* C08 - more latency never means more limit (update monotone in the observed RTT). *)
 From Coq Require Import ZArith Reals List.
 From Flocq Require Import Core BinarySingleNaN.
-From GCL Require Import Base.F64 Base.F64Facts Model.Measure Model.Limits Proofs.VegasSafe Proofs.VegasMono Proofs.VegasQueueMono Proofs.GradSafe Proofs.GradMono.
+From GCL Require Import Base.F64 Base.F64Facts Model.Measure Model.Limits Proofs.VegasSafe Proofs.VegasMono Proofs.VegasQueueMono Proofs.VegasMonoFull Proofs.GradSafe Proofs.GradMono.
 From GCL Require Proofs.TablesOk.
 
 (* Vegas.  The observed RTT enters the update only through the queue estimate q = ceil(est x (1 - baseline/rtt)) (vegas_queue).
@@ -9,8 +9,8 @@ From GCL Require Proofs.TablesOk.
    and two queue estimates q1 <= q2 whose samples both update the estimate (neither is a probe, baseline-setting, app-limited,
    nor in the dead band alpha <= q <= beta): the stored estimate after q2 is not above the stored estimate after q1.
    (i) Monotonicity of q itself in the RTT is C08_vegas_queue_mono below, and C08_vegas_rtt_mono composes the two on vegas_step.
-   PARTIAL: (ii) the comparison between an updating sample and a dead-band sample (where rounding of the smoothing weights can move
-   the stored value by an ulp) is decided by the twin-run check. *)
+   (ii) The comparison between an updating sample and a dead-band sample is C08_vegas_all_branches (estimate in [7/4, max - 1]); outside
+   that range (estimate above max - 1, known finding F18 for initial > max) it is decided by the twin-run check. *)
 Theorem C08_vegas_partial v M s pc em : VInv v M -> sample_ok s ->
   (forall l y, log10i (to_int (v_est v)) (s_lgi s) = Some l -> log10f (v_est v) (s_lgf s) = Some y -> (R y <= 6 * IZR l)%R) ->
   forall q1 q2 o1 o2, (q1 <= q2)%Z ->
@@ -19,6 +19,17 @@ Theorem C08_vegas_partial v M s pc em : VInv v M -> sample_ok s ->
   (R (v_est (o_st o2)) <= R (v_est (o_st o1)))%R.
 Proof. exact (fun HI HS HL q1 q2 o1 o2 => vegas_update_mono v M s pc em HI HS HL q1 q2 o1 o2). Qed.
 Print Assumptions C08_vegas_partial.
+
+(* ... and the dead-band corner: for an estimate in [7/4, max - 1] (ceiling bound M >= 20) the statement holds across ALL branches, the dead band
+   (estimate kept) and the app-limited case included - the smoothed increase never ends below the current estimate and the smoothed decrease never above it *)
+Theorem C08_vegas_all_branches v M s pc em : VInv v M -> sample_ok s -> (20 <= M)%Z ->
+  (7/4 <= R (v_est v))%R -> (R (v_est v) <= IZR (v_max v) - 1)%R ->
+  (forall l y, log10i (to_int (v_est v)) (s_lgi s) = Some l -> log10f (v_est v) (s_lgf s) = Some y -> (R y <= 6 * IZR l)%R) ->
+  forall q1 q2 o1 o2, (q1 <= q2)%Z ->
+  vegas_update v s pc em q1 = Some o1 -> vegas_update v s pc em q2 = Some o2 ->
+  (R (v_est (o_st o2)) <= R (v_est (o_st o1)))%R.
+Proof. exact (fun HI HS M20 Elo Ehi HL q1 q2 o1 o2 => vegas_update_mono_full v M s pc em HI HS M20 Elo Ehi HL q1 q2 o1 o2). Qed.
+Print Assumptions C08_vegas_all_branches.
 
 (* the queue estimate int(ceil(est x (1 - baseline/rtt))) is monotone in the RTT, for RTTs at or above the baseline: every binary64
    operation on the way is monotone on the operands' range *)
